@@ -1288,3 +1288,96 @@ Lemma cfw_charge :
   rl_client (fst (rl_allow_client_first (rl_final (rl_of_config cfw_cfg 0) (firstn 5 cfw_history)) 0 cfw_victim 1))
   <> rl_client (rl_final (rl_of_config cfw_cfg 0) (firstn 5 cfw_history)).
 Proof. vm_compute. intros H. discriminate H. Qed.
+
+(* ------------------------------------------------------------------ one stream connection: the in-flight counter *)
+
+Lemma refusal_not_answered l : refusal l <> OAnswered.
+Proof. destruct l; discriminate. Qed.
+
+Lemma forwards_answered o : forwards o = true <-> o = OAnswered.
+Proof. destruct o; cbn; split; intros H; try discriminate; reflexivity. Qed.
+
+(* the counter = slots taken by handled queries minus replies written: a refused query (by the cap or by the limiter)
+   never keeps a slot *)
+Lemma lsc_inflight_run l maxc : forall es s,
+  lsc_inflight (fst (lsc_run l maxc s es)) =
+  lsc_inflight s + lsc_count_answered (snd (lsc_run l maxc s es)) - lsc_count_done es.
+Proof.
+  induction es as [|e es IH]; intros s; [cbn; lia|].
+  unfold lsc_run in *. cbn [lsc_run_gen fst snd lsc_count_answered lsc_count_done fold_right].
+  rewrite IH. fold (lsc_count_answered (snd (lsc_run_gen false l maxc (fst (lsc_step_gen false l maxc s e)) es))).
+  fold (lsc_count_done es).
+  destruct e as [now a hit|]; cbn [lsc_step_gen].
+  - destruct (lsc_cap_hit l maxc s); cbn [fst snd].
+    + pose proof (refusal_not_answered l). destruct (refusal l); try contradiction; lia.
+    + destruct (forwards (snd (accept_query (lsc_rl s) now l a hit))) eqn:F; cbn [fst snd lsc_inflight].
+      * apply forwards_answered in F. rewrite F. lia.
+      * destruct (snd (accept_query (lsc_rl s) now l a hit)); try discriminate; lia.
+  - cbn [fst snd lsc_inflight]. lia.
+Qed.
+
+(* at quiescence (every handled query has had its reply written) the counter is back where it started *)
+Lemma lsc_quiescent l maxc es s :
+  lsc_count_answered (snd (lsc_run l maxc s es)) = lsc_count_done es ->
+  lsc_inflight (fst (lsc_run l maxc s es)) = lsc_inflight s.
+Proof. intros H. rewrite lsc_inflight_run. lia. Qed.
+
+(* a query is refused only if the cap or the limiter says so at that moment *)
+Lemma lsc_refusal_reasons l maxc s now a hit :
+  exists o, snd (lsc_step l maxc s (LscArrive now a hit)) = Some o /\
+  (forwards o = false <->
+   lsc_cap_hit l maxc s = true \/
+   exists c, query_cost l = Some c /\ rl_is_ok (snd (rl_allow (lsc_rl s) now a c)) = false).
+Proof.
+  unfold lsc_step. cbn [lsc_step_gen]. destruct (lsc_cap_hit l maxc s) eqn:C; cbn [snd].
+  - exists (refusal l). split; [reflexivity|]. split; [intros _; left; reflexivity|intros _; apply forwards_refusal].
+  - assert (forall o, snd (if forwards o then (mkLsconn (fst (accept_query (lsc_rl s) now l a hit)) (lsc_inflight s + 1), Some o)
+                            else (mkLsconn (fst (accept_query (lsc_rl s) now l a hit)) (lsc_inflight s), Some o)) = Some o) as E
+      by (intros o; destruct (forwards o); reflexivity).
+    exists (snd (accept_query (lsc_rl s) now l a hit)). split; [apply E|].
+    unfold accept_query. destruct (query_cost l) as [c|] eqn:Q.
+    + destruct (rl_is_ok (snd (rl_allow (lsc_rl s) now a c))) eqn:R; cbn [snd].
+      * split; [discriminate|]. intros [X|(c' & Qc & X)]; [discriminate|]. inversion Qc; subst c'. congruence.
+      * split; [intros _; right; exists c; auto|intros _; apply forwards_refusal].
+    + cbn [snd rl_is_ok]. split; [discriminate|]. intros [X|(c' & Qc & _)]; discriminate.
+Qed.
+
+(* on a quiescent connection (counter 0, cap >= 1) the answer is the limiter's decision alone *)
+Lemma lsc_quiescent_limiter_only l maxc s now a hit : lsc_inflight s = 0 -> 1 <= maxc ->
+  lsc_step l maxc s (LscArrive now a hit) =
+  (let x := accept_query (lsc_rl s) now l a hit in
+   (mkLsconn (fst x) (if forwards (snd x) then 1 else 0), Some (snd x))).
+Proof.
+  intros I M. unfold lsc_step. cbn [lsc_step_gen]. unfold lsc_cap_hit. rewrite I.
+  assert (maxc <? 0 + 1 = false) as -> by lia. rewrite andb_false_r. cbn zeta.
+  destruct (forwards (snd (accept_query (lsc_rl s) now l a hit))); reflexivity.
+Qed.
+
+(* the leaking variant: rate 1/s, burst 7, max_concurrent_queries 2, one tcp connection.  Two queries are handled (2 + 3 and
+   2 tokens), two are refused by the limiter, all replies are written; three seconds later the bucket holds 3 tokens and the
+   connection is idle, yet the query is refused: the two limiter refusals still hold both slots. *)
+Definition scw_rl : rl := rl_of_config (mkLimCfg 0 1 7 24 48) 0.
+Definition scw_client : lim_addr := LA4 3232235777%N.
+Definition scw_script : list lsc_ev :=
+  [LscArrive 0 scw_client false; LscArrive 0 scw_client false; LscDone; LscDone;
+   LscArrive 0 scw_client false; LscArrive 0 scw_client false].
+Lemma scw_witness :
+  snd (lsc_run_gen true LmTcp 2 (mkLsconn scw_rl 0) scw_script)
+    = [Some OAnswered; Some OAnswered; None; None; Some ORefused; Some ORefused] /\
+  lsc_count_answered (snd (lsc_run_gen true LmTcp 2 (mkLsconn scw_rl 0) scw_script)) = lsc_count_done scw_script /\
+  lsc_inflight (fst (lsc_run_gen true LmTcp 2 (mkLsconn scw_rl 0) scw_script)) = 2 /\
+  snd (lsc_step_gen true LmTcp 2 (fst (lsc_run_gen true LmTcp 2 (mkLsconn scw_rl 0) scw_script)) (LscArrive 3000000000 scw_client false))
+    = Some ORefused /\
+  snd (accept_query (lsc_rl (fst (lsc_run_gen true LmTcp 2 (mkLsconn scw_rl 0) scw_script))) 3000000000 LmTcp scw_client false)
+    = OAnswered /\
+  snd (lsc_run LmTcp 2 (mkLsconn scw_rl 0) (scw_script ++ [LscArrive 3000000000 scw_client false]))
+    = [Some OAnswered; Some OAnswered; None; None; Some ORefused; Some ORefused; Some OAnswered] /\
+  lsc_inflight (fst (lsc_run LmTcp 2 (mkLsconn scw_rl 0) scw_script)) = 0.
+Proof. vm_compute. repeat split; reflexivity. Qed.
+
+(* a peer without an IP address (unix socket) is never charged, at accept or per query *)
+Lemma no_address_no_charge r now n l :
+  rl_allow r now LANone n = (r, RlOk) /\ accept_conn r now l LANone = (r, OAccepted).
+Proof.
+  split; [reflexivity|]. unfold accept_conn. destruct (conn_cost l); reflexivity.
+Qed.
